@@ -156,7 +156,7 @@ Proof.
     rcbn. rewrite fold_app, (fold_mem_only m es0) by exact Hmem. rewrite FL.
     cbn [mon_eff]. rewrite PRE. pcbn.
     assert (Hcapok : zlen (a_pending (c_a c)) + zlen bs <= cap m).
-    { destruct HM0. unfold in_space, cap in *. destruct m.
+    { destruct HM0. destruct m; unfold in_space, cap, BUF_SIZE, PIPE_CAP, SPLICE_REQ in *.
       - rewrite md_bytes0 in Hle. lia.
       - rewrite md_buf0 in Hle. lia. }
     apply isnil_false in Hne. rewrite Hne. apply Z.leb_le in Hcapok. rewrite Hcapok. cbn [negb andb].
